@@ -200,9 +200,9 @@ func checkC06(c *Ctx) {
 		"through a recording wrapper; every output vertex is matched offline against the recorded (point,value) log. " +
 		"Non-trivial = >= 100 vertices matched against the log; distinct = (shape, renderer, cells).")
 	c.Assume("h = largest cell edge of the learned lattice; 'resolvable' surface point = the field is <= -d at p - d*n and >= d at p + d*n for d = one cell diagonal")
-	n := c.Pick(140, 3000)
-	maxCells := c.Pick(40, 150)
-	gate := newGate(5_000_000) // sum of cells^3 in flight (each recorded sample costs ~100 bytes)
+	n := c.Pick(140, 1000)
+	maxCells := c.Pick(40, 120)
+	gate := newGate(12_000_000) // sum of sampled nodes in flight (each recorded sample costs ~150 bytes)
 	parallelFor(n, func(i int) {
 		r := c.Rng("case", i)
 		rk := mcRenderers[(i/7)%2]
@@ -212,11 +212,18 @@ func checkC06(c *Ctx) {
 		}
 		if i%6 == 1 { // resolutions where the octree has no slack: powers of two and their neighbours
 			cells = pickOne(r, []int{8, 16, 32, 64, 7, 9, 15, 17, 31, 33, 63})
-			if !c.Quick && r.P(0.3) {
+			if !c.Quick && r.P(0.06) {
 				cells = pickOne(r, []int{127, 128, 129})
 			}
+		} else if rk.name == "octree" && cells > 128 {
+			cells = 128 // the octree works on the next power of two: 129.. cells cost 256^3 samples each
 		}
-		defer gate.enter(int64(cells) * int64(cells) * int64(cells))()
+		w := int64(cells)
+		if rk.name == "octree" {
+			for w = 1; w < int64(cells); w *= 2 {
+			}
+		}
+		defer gate.enter(w * w * w)()
 		sh := c06MakeShape(r, i)
 		cs := c06Case{i, rk.name, cells, sh.desc}
 		rd := rk.mk(cells)
@@ -429,5 +436,5 @@ func checkC06(c *Ctx) {
 			c.Obs("sphere_volume_error_ratio_per_doubling_"+rk.name, []float64{errs[0] / errs[1], errs[1] / errs[2]})
 		}
 	}
-	c.Floor(c.Pick(60, 1500))
+	c.Floor(c.Pick(60, 500))
 }
